@@ -219,8 +219,61 @@ def one_family(ev, mods, imps, s, o, acc, fid, mono_edges):
         acc.count("mono_pairs")
 
 
+def source_monotonicity(spec, acc):
+    """Adding an import (here: appending an import statement to a scanned file) never turns a passing
+    'should' into a failing one nor a failing 'should not' into a passing one."""
+    import os
+
+    from pytestarch import get_evaluable_architecture
+
+    from .. import trees
+
+    rnd = random.Random(spec["seed"])
+    for i in range(spec["n"]):
+        tspec = trees.random_project(rnd, depth=3, imports_per_file=(1, 3), name_imports=0.0, extras=False)
+        files = sorted(f for f in tspec["files"] if f.endswith(".py"))
+        mods = [trees.mod_of("proj", f) for f in files]
+        if len(files) < 3:
+            continue
+        f = rnd.choice(files)
+        me = trees.mod_of("proj", f)
+        target = rnd.choice([m for m in mods if m != me and not me.startswith(m + ".")])
+        parent, _, leaf = target.rpartition(".")
+        stmt = rnd.choice([f"import {target}", f"from {parent} import {leaf}", f"from {parent} import {leaf} as zz"])
+        case = {"kind": "source_mono", "spec": tspec, "file": f, "stmt": stmt}
+        HUB.case = case
+        root = trees.write_tree(tspec)
+        try:
+            get_evaluable_architecture(root, root)
+            before = HUB.scan_events[-1]
+            with open(os.path.join(root, f), "a") as fh:
+                fh.write("\n" + stmt + "\n")
+            get_evaluable_architecture(root, root)
+            after = HUB.scan_events[-1]
+        finally:
+            trees.remove_tree(root)
+        acc.evaluated(2)
+        acc.count("source_monotonicity_pairs")
+        gone = sorted(e for e in before.imps - after.imps)
+        if gone:
+            HUB.violation("C12", "monotonicity:source-level:import-lost", f"appending '{stmt}' to {f} removed imports {gone[:3]}", {"case": case, "lost": gone})
+            continue
+        # verdict level on a few rules that touch the edited module
+        for _ in range(4):
+            o = rnd.choice([m for m in mods if m != me])
+            for verb, exc in MONO:
+                cfg = cfg_of(verb, "import", exc, ("named", me), ("named", o))
+                b, a = run(mk_rule(cfg), before.evaluable)[0], run(mk_rule(cfg), after.evaluable)[0]
+                acc.evaluated(2)
+                acc.count("law_monotonicity")
+                if (verb == "should" and b == "pass" and a != "pass") or (verb == "should_not" and b == "fail" and a != "fail"):
+                    HUB.violation("C12", f"monotonicity:source-level:{verb}", f"appending '{stmt}' turned {verb} from {b} to {a}", {"case": case, "cfg": cfg})
+        if after.imps - before.imps:
+            acc.nontrivial({"t": tspec, "f": f, "s": stmt})
+
+
 def plan(tier, seed):
-    specs = []
+    specs = [{"kind": "source_mono", "n": 60 if tier == "quick" else 1500} for _ in range(2 if tier == "quick" else 6)]
     nsh = 6 if tier == "quick" else 16
     for i in range(nsh):
         specs.append({"kind": "exhaustive", "tree": "T1", "every": 4 if tier == "quick" else 1, "part": i, "parts": nsh})
@@ -230,7 +283,9 @@ def plan(tier, seed):
 
 
 def run_shard(spec, acc):
-    if spec["kind"] == "exhaustive":
+    if spec["kind"] == "source_mono":
+        source_monotonicity(spec, acc)
+    elif spec["kind"] == "exhaustive":
         exhaustive(spec, acc)
     else:
         randomised(spec, acc)
@@ -300,6 +355,9 @@ def randomised(spec, acc):
 def replay(case, acc):
     mods = case["mods"]
     imps = [tuple(i) for i in case["imps"]]
+    if case["kind"] == "source_mono":
+        acc.mark_inconclusive("source-level monotonicity cases are replayed by re-running the check with the recorded seed")
+        return
     if case["kind"] == "regex_family":
         regex_family(build(mods, imps), mods, imps, case["rx"], tuple(case["o"]), acc)
         return
@@ -317,6 +375,8 @@ def floors(acc, tier):
     for law in ("law_duality", "law_negation", "law_decomposition", "law_alias", "law_monotonicity"):
         if acc.counters[law] < 1000:
             why.append(f"{law}: only {acc.counters[law]} instances checked")
+    if acc.counters["source_monotonicity_pairs"] < 50:
+        why.append(f"source-level monotonicity pairs: {acc.counters['source_monotonicity_pairs']}")
     h = acc.hists.get("family_kind", {})
     if not any(k.startswith("related") for k in h):
         why.append("no family with related subject/object observed")
